@@ -133,12 +133,16 @@ func evalImgs(os []ugo.Object) string {
 // ---- running real sessions --------------------------------------------------------------
 
 type evalCfg struct {
-	noOpt bool
-	limit int
-	args  []ugo.Object
+	noOpt    bool
+	limit    int
+	args     []ugo.Object
+	disabled []string // builtins disabled in the session's (and the batch run's) root symbol table
 }
 
 func (c evalCfg) String() string {
+	if len(c.disabled) > 0 {
+		return fmt.Sprintf("noopt=%v limit=%d args=%s disabled=%v", c.noOpt, c.limit, evalImgs(c.args), c.disabled)
+	}
 	return fmt.Sprintf("noopt=%v limit=%d args=%s", c.noOpt, c.limit, evalImgs(c.args))
 }
 
@@ -165,6 +169,11 @@ func newEvalSession(cfg evalCfg) *ugo.Eval {
 	}
 	mm.AddBuiltinModule("bm", evalBuiltinModule())
 	opts := ugo.CompilerOptions{ModuleMap: mm, NoOptimize: cfg.noOpt, OptimizerLimit: cfg.limit}
+	if len(cfg.disabled) > 0 {
+		st := ugo.NewSymbolTable()
+		st.DisableBuiltin(cfg.disabled...)
+		opts.SymbolTable = st
+	}
 	args := append([]ugo.Object{}, cfg.args...)
 	return ugo.NewEval(opts, ugo.Map{}, args...)
 }
@@ -646,6 +655,13 @@ func init() {
 				{[]string{"f := func() { return import(\"src1\").inc() }", "f()", "f()", "import(\"src1\").get()"}, []string{"f()"}, nil},
 				{[]string{"b1 := import(\"bm\")", "b1.n", "b2 := import(\"bm\")", "b2.twice(4)"}, []string{"b1.n", "b2.n"}, nil},
 				{[]string{"c := import(\"src1\")", "c.k = 5", "import(\"src1\").k"}, []string{"c.k", "import(\"src1\").k"}, nil},
+				// a module initialised by an earlier fragment survives the first import of ANOTHER module later
+				{[]string{"a := import(\"src1\")", "a.inc()", "a.k = 9", "b := import(\"bm\")", "import(\"src1\").get()", "c := import(\"src2\")", "import(\"src1\").k"}, []string{"a.get()", "import(\"src1\").k", "b.n"}, nil},
+				// a builtin used (not foldably) by an earlier fragment and then redefined at top level keeps
+				// its new meaning in later fragments, also where the optimizer could fold the call
+				{[]string{"arr := [1, 2]", "n := len(arr)", "len := func(x) { return 100 }", "len(\"abc\")", "m := len(\"ab\") + 1"}, []string{"n", "m", "len(\"abcd\")"}, nil},
+				{[]string{"s := string(1)", "string := func(x) { return \"S\" }", "string(2) + \"!\"", "t := [string(3)]"}, []string{"s", "t"}, nil},
+				{[]string{"i := int(\"4\")", "var int = func(x) { return -1 }", "int(\"5\")", "j := int(\"6\") * 2"}, []string{"i", "j"}, nil},
 			} {
 				es := &gen.EvalScript{Stmts: w.stmts, FailAt: -1, Probes: make([][]string, len(w.stmts))}
 				es.Probes[len(w.stmts)-1] = w.probes
@@ -653,6 +669,24 @@ func init() {
 				for m := uint64(0); m < 1<<uint(len(w.stmts)-1); m++ {
 					checkCut(c, evalCfg{noOpt: true, args: w.args}, es, m, batch)
 					checkCut(c, evalCfg{args: w.args}, es, m, batch)
+				}
+			}
+			// disabled builtins keep their meaning (unresolved) in every later fragment, also after a fragment
+			// declared a variable named like ANOTHER builtin, with the optimizer on and off (oracle only)
+			for _, st := range [][]string{
+				{"x := 1", "int := 2", "len(\"abc\")"},
+				{"string := func(v) { return \"s\" }", "y := len(\"ab\") + 1"},
+				{"len(\"a\")", "z := 3", "len(\"abc\") * 2"},
+				{"const k = 2", "char := 1", "w := k + len(\"abc\")"},
+			} {
+				es := &gen.EvalScript{Stmts: st, FailAt: -1, Probes: make([][]string, len(st))}
+				batch := map[int]*batchRes{}
+				for m := uint64(0); m < 1<<uint(len(st)-1); m++ {
+					checkCut(c, evalCfg{noOpt: true, disabled: []string{"len", "cap"}}, es, m, batch)
+				}
+				batch = map[int]*batchRes{}
+				for m := uint64(0); m < 1<<uint(len(st)-1); m++ {
+					checkCut(c, evalCfg{disabled: []string{"len", "cap"}}, es, m, batch)
 				}
 			}
 			{
